@@ -11,7 +11,7 @@ GEN=/verif/mc/gen
 mkdir -p /verif/build "$BIN"
 exec 9>/verif/build/gen.lock
 flock 9
-rm -rf "$GEN"; mkdir -p "$GEN/lexers"
+rm -rf "$GEN/lexers" "$GEN"/*.json "$GEN/build_errors.txt"; mkdir -p "$GEN/lexers"
 go build $MODFLAG -o "$BIN/genxprep" ./cmd/genxprep || exit 2
 "$BIN/genxprep" emit "$GEN" "$TIER" || exit 2
 # the real generator, driven in batch through an overlaid extra file (nothing re-implemented)
